@@ -6,6 +6,7 @@ functions are generated with exec() (one distinct definition per node) and repor
 from __future__ import annotations
 
 import itertools
+import keyword as _kw
 import warnings
 
 from . import seams
@@ -469,9 +470,9 @@ def build_node(spec, h, funcs=None):
             if fn is None:
                 fn = _PARTIALS[pk] = functools.partial(_gen_func(spec, _CurrentH(), spec.get("fname", nid), shared=fkey is not None), canon(spec["partial"]))
         else:
-            deco = VIA == "deco" and not spec.get("no_deco") and str(name).isidentifier()
+            deco = VIA == "deco" and not spec.get("no_deco") and str(name).isidentifier() and not _kw.iskeyword(str(name))
             fn = _gen_func(spec, h, name if deco else spec.get("fname", nid), shared=fkey is not None)
-        deco = VIA == "deco" and "partial" not in spec and not spec.get("no_deco") and str(name).isidentifier()
+        deco = VIA == "deco" and "partial" not in spec and not spec.get("no_deco") and str(name).isidentifier() and not _kw.iskeyword(str(name))
         common = {}
         if spec.get("emit"):
             common["emit"] = tuple(spec["emit"])
